@@ -31,6 +31,7 @@ type Case struct {
 	Stress       int    `json:"stress,omitempty"`
 	MaxEvents    int    `json:"maxev,omitempty"`
 	NoTrace      bool   `json:"notrace,omitempty"` // do not ship the event list back (only its hash/len)
+	Init         int    `json:"init,omitempty"`    // >0: InitState("n", Init), InitState("box", &Box{Init}), InitState("k<Init%3>", "init")
 }
 
 // ErrRec is one element of the returned error list as seen from inside the package.
